@@ -17,7 +17,7 @@ for d in sorted(glob.glob(os.path.join(V, 'seeded', '*'))):
     if rc != 0:
         print(name, 'PATCH-DOES-NOT-APPLY'); missed.append(name); continue
     try:
-        rc, o = sh('./check %s --tier quick' % prop, cwd=V)
+        rc, o = sh('timeout 1800 ./check %s --tier quick' % prop, cwd=V)
         viol = [l for l in o.split('\n') if l.startswith('VIOLATION')]
         print(name, 'detected' if rc != 0 else 'MISSED', viol[0][:120] if viol else '')
         if rc == 0:
